@@ -205,7 +205,10 @@ func (ctx *actorContext) StateChanged(event Message) int {
 	}
 	num := ctx.persistenceState.StateChanged(event)
 	if num >= ctx.persistenceEventThreshold {
+		// 快照请求在当前消息的处理过程中同步执行，执行完毕后需还原当前消息及发送者，否则调用方后续的 Message/Sender/Reply 将指向快照请求及自身
+		message, sender := ctx.message, ctx.sender
 		ctx.processMessage(ctx.ref, ctx.ref, onPersistenceSnapshot, false)
+		ctx.message, ctx.sender = message, sender
 	}
 	return num
 }
